@@ -36,5 +36,13 @@ for _p in ("C03", "C17"):
     PROPS[_p]["units"] = PROPS[_p]["units"] + ["find"]
 PROPS["C11"] = {"units": ["find"], "level": "proof", "assumptions": []}
 NOT_APPLICABLE.pop("C11", None)
+from . import c12 as _c12
+PROPS["C12"] = {"units": ["entry"], "level": "exploration", "assumptions": [
+    "regex crate and str::parse::<u32> are exercised natively on the enumerated set only (bounded, not proved)"],
+    "extra": [("conformance", _c12.run)],
+    "level_text": "bounded-exhaustive conformance of the real extraction (through the real parser) to an oracle that Verus proved equal to the token rule and compiled; "
+                  "the inserted-token clause is proved (unit entry: C12.inserted; oracle lemma_inserted_token_reads_back)",
+    "technique": "Verus-verified and Verus-compiled oracle (token rule == executable twin; inserted-token lemma) + bounded-exhaustive native conformance run of the real code; bounded part labelled bounded"}
+NOT_APPLICABLE.pop("C12", None)
 for _k in ("C15", "C16"):
     NOT_APPLICABLE.pop(_k, None)
